@@ -42,7 +42,9 @@ type ingCfg struct {
 	Chunks  string `json:"chunks"`
 	Workers int    `json:"workers"`
 	Store   string `json:"store"` // mem | badger
-	Via     string `json:"via"`   // pkg | cli
+	Via     string `json:"via"`   // pkg | cli | cli-bf
+	// SpillFault > 0 (pkg only): one spill file loses its last byte between the reading and the merging phase
+	SpillFault int `json:"spill_fault,omitempty"`
 }
 
 func (s *tblSpec) build() *gen.Table {
@@ -135,6 +137,8 @@ type ingestResult struct {
 	DB     objects.Store
 	Close  func()
 	Export string // CLI: output of wrgl export
+	// Faulted names the spill file that was damaged ("" = none, e.g. nothing was spilled)
+	Faulted string
 }
 
 // runIngest ingests csvBytes under cfg, at package level or through the in-process CLI.
@@ -263,7 +267,7 @@ func runIngest(env *fw.Env, id string, csvBytes []byte, pkNames []string, cfg in
 		}
 	}
 	res.DB = db
-	res.Sum, res.Err, res.Panic = mon.Ingest(db, csvBytes, mon.IngestCfg{PK: pkNames, Delim: delimRune(cfg.Delim), RunSize: runSize, Workers: cfg.Workers})
+	res.Sum, res.Err, res.Panic = mon.Ingest(db, csvBytes, mon.IngestCfg{PK: pkNames, Delim: delimRune(cfg.Delim), RunSize: runSize, Workers: cfg.Workers, SpillFault: cfg.SpillFault, Faulted: &res.Faulted})
 	return
 }
 
